@@ -1,0 +1,65 @@
+//! Verification hooks (compiled only with `--cfg humphrey_verif`).
+//!
+//! Public plain-data wrappers over the crate-private `frame` and `util` modules so that an external
+//! harness can drive the frame codec and the SHA-1 / Base64 primitives. Adds no behaviour.
+
+use crate::error::WebsocketError;
+use crate::frame::{Frame, Opcode};
+
+use std::convert::TryFrom;
+use std::io::Read;
+
+pub use crate::util::base64::{Base64Decode, Base64Encode};
+pub use crate::util::sha1::SHA1Hash;
+
+/// Plain-data mirror of the private `Frame`.
+#[derive(Debug, Clone, PartialEq, Eq)]
+pub struct VFrame {
+    /// FIN bit
+    pub fin: bool,
+    /// RSV1-3
+    pub rsv: [bool; 3],
+    /// opcode as its wire value
+    pub opcode: u8,
+    /// MASK bit
+    pub mask: bool,
+    /// declared payload length
+    pub length: u64,
+    /// masking key
+    pub masking_key: [u8; 4],
+    /// payload
+    pub payload: Vec<u8>,
+}
+
+impl From<Frame> for VFrame {
+    fn from(f: Frame) -> Self {
+        VFrame {
+            fin: f.fin,
+            rsv: f.rsv,
+            opcode: f.opcode as u8,
+            mask: f.mask,
+            length: f.length,
+            masking_key: f.masking_key,
+            payload: f.payload,
+        }
+    }
+}
+
+/// Encodes a frame with `Vec<u8>::from(Frame)`. Returns `None` if the opcode is not one `Opcode` models.
+pub fn encode(f: VFrame) -> Option<Vec<u8>> {
+    let opcode = Opcode::try_from(f.opcode).ok()?;
+    Some(Vec::<u8>::from(Frame {
+        fin: f.fin,
+        rsv: f.rsv,
+        opcode,
+        mask: f.mask,
+        length: f.length,
+        masking_key: f.masking_key,
+        payload: f.payload,
+    }))
+}
+
+/// Decodes a frame with `Frame::from_stream`.
+pub fn decode<T: Read>(stream: T) -> Result<VFrame, WebsocketError> {
+    Frame::from_stream(stream).map(VFrame::from)
+}
